@@ -160,6 +160,7 @@ Proof.
   - unfold delete_char; rewrite res_buf_drop_ret; now apply delete_inv.
   - now apply insert_text_inv.
   - now apply transpose_inv.
+  - unfold join_selected_lines. now apply set_document_inv.
 Qed.
 
 (* Every reachable state: any finite sequence of operations, exceptions
